@@ -521,7 +521,7 @@ fn pretty_print(output: TokenStream) -> «(r:» String«)
 }
 //@end
 
-//@stub lib.rs::token_text
+//@stub lib.rs::token_text trusted-sha256=61e01a630b9b84e4
 «#[verifier::external_body]»
 fn token_text(tokens: TokenStream) -> «(r:» String«)
     ensures r@ == canon_text(ts_view(&tokens)), // [C19.canon] TRUSTED (the body walks proc_macro2 token trees, which Verus cannot see into): the text is a function of the tokens»
